@@ -632,11 +632,22 @@ Section Eval.
         end
     end.
 
+  Fixpoint offsets_ok (len pos : Z) (ms : list mrec) : bool :=
+    match ms with
+    | [] => true
+    | m :: r => (pos <=? m_start m)%Z && (m_start m <=? m_end m)%Z && (m_end m <=? len)%Z
+                && offsets_ok len (m_end m) r
+    end.
+
   Definition extract_matches (apply : callable -> list ovalue -> M ovalue)
              (fn : callable) (s : string) (limit : Z) : M (list mrec) :=
     ms <- call_match_func (S (S (slen s))) apply fn [Some (VStr s)] [] ;;
-    ret (if (0 <=? limit)%Z && (limit <? Z.of_nat (List.length ms))%Z
-         then firstn (Z.to_nat limit) ms else ms).
+    let ms := if (0 <=? limit)%Z && (limit <? Z.of_nat (List.length ms))%Z
+              then firstn (Z.to_nat limit) ms else ms in
+    (* offsets must lie within the string, in ascending order (a user-defined matcher may
+       return anything) *)
+    if offsets_ok (Z.of_nat (slen s)) 0%Z ms then ret ms
+    else fail (ELib "match function: offsets").
 
   (* Go slice expression s[a:b] on a string: panics unless 0 <= a <= b <= len *)
   Definition go_slice (s : string) (a b : Z) : M string :=
